@@ -29,24 +29,40 @@ def main():
     outputs = {}
     procs = {}
     build_s = 0.0
-    for p in PROFILES:
+    import concurrent.futures
+    tb0 = time.time()
+
+    def build_profile(p):
+        # one target directory per profile so that the four profiles build concurrently
+        penv = dict(env, CARGO_TARGET_DIR=f'{CR}/target/{p}-dir')
+        res = []
         for f in FEATS:
             name = f'{p}-{f or "plain"}'
             cmd = ['cargo', 'build', '--offline', '--profile', p]
             if f:
                 cmd += ['--features', f]
-            tb = time.time()
-            r = subprocess.run(cmd, cwd=CR, env=env, capture_output=True, text=True)
-            build_s += time.time() - tb
+            r = subprocess.run(cmd, cwd=CR, env=penv, capture_output=True, text=True)
             if r.returncode != 0:
-                print(f'MACHINERY-FAILURE: c18_replay does not build in configuration {name}', file=sys.stderr)
-                print(r.stderr[-3000:], file=sys.stderr)
-                return 2
+                return (name, r.stderr[-3000:])
             dst = f'{bins}/c18-{name}'
-            shutil.copy(f'{CR}/target/{p}/c18_replay', dst)
-            if build_only:
-                continue
-            procs[name] = subprocess.Popen([dst, str(depth), seed], stdout=subprocess.PIPE, stderr=subprocess.PIPE, text=True)
+            shutil.copy(f'{CR}/target/{p}-dir/{p}/c18_replay', dst)
+            res.append((name, dst))
+        return res
+
+    with concurrent.futures.ThreadPoolExecutor(max_workers=4) as ex:
+        results = list(ex.map(build_profile, PROFILES))
+    build_s = time.time() - tb0
+    for r in results:
+        if isinstance(r, tuple):
+            print(f'MACHINERY-FAILURE: c18_replay does not build in configuration {r[0]}', file=sys.stderr)
+            print(r[1], file=sys.stderr)
+            return 2
+    if not build_only:
+        for r in results:
+            for name, dst in r:
+                procs[name] = subprocess.Popen([dst, str(depth), seed], stdout=subprocess.PIPE, stderr=subprocess.PIPE, text=True)
+        # determinism self-check: one configuration is replayed twice (concurrently with the rest)
+        twin = subprocess.Popen([results[2][0][1], str(depth), seed], stdout=subprocess.PIPE, stderr=subprocess.PIPE, text=True)
     if build_only:
         print(f'c18_replay built in 8 configurations in {build_s:.1f}s')
         return 0
@@ -65,8 +81,8 @@ def main():
             print(f'MACHINERY-FAILURE: configuration {k} produced {len(outputs[k])} items, {names[0]} produced {n}', file=sys.stderr)
             return 2
     # determinism self-check: the first configuration twice
-    r2 = subprocess.run([f'{bins}/c18-{names[0]}', str(depth), seed], capture_output=True, text=True).stdout.splitlines()
-    if r2 != ref:
+    r2 = twin.communicate()[0].splitlines()
+    if r2 != outputs[results[2][0][0]]:
         print('MACHINERY-FAILURE: the replayer is not deterministic in one configuration', file=sys.stderr)
         return 2
     diffs = []
